@@ -8,13 +8,13 @@ EXTENDS I_Pools, Json
 
 CONSTANTS SimLen
 VARIABLE hist
-gvars == <<pools, blocks, hist>>
+gvars == <<pools, blocks, unsettled, nfail, hist>>
 
-GInit == Init /\ hist = <<>>
+GInit == IInit /\ hist = <<>>
 Step(a, r) == a /\ hist' = Append(hist, r)
 
 GNext ==
-  \/ /\ Len(hist) = SimLen /\ hist' = Append(hist, [op |-> "end"]) /\ UNCHANGED pvars
+  \/ /\ Len(hist) = SimLen /\ hist' = Append(hist, [op |-> "end"]) /\ UNCHANGED <<pools, blocks, unsettled, nfail>>
   \/ /\ Len(hist) < SimLen
      /\ \/ \E n \in AllNames, c \in Cidrs, dis \in BOOLEAN, tie \in BOOLEAN :
               Step(ICreate(n, c, dis, tie), [op |-> "create", n |-> n, cidr |-> c, dis |-> dis, tie |-> tie])
@@ -23,8 +23,9 @@ GNext ==
         \/ \E b \in BlockSpots : Step(IBlockAppears(b), [op |-> "block_add", cidr |-> b])
         \/ \E b \in BlockSpots : Step(IBlockVanishes(b), [op |-> "block_del", cidr |-> b])
         \/ Step(IReconcile, [op |-> "reconcile"])
+        \/ \E f \in AllNames : Step(IReconcileFail(f), [op |-> "reconcile", fail |-> <<f>>])
 
-GView == <<pools, blocks>>
+GView == <<pools, blocks, unsettled, nfail>>
 \* one behaviour per reachable abstract state: printed on the Reconcile edge leaving it
 EmitEdge == (hist'[Len(hist')].op = "reconcile") => PrintT("BEH " \o ToJson(hist'))
 EmitAtLen == Len(hist) = SimLen + 1 => PrintT("BEH " \o ToJson(hist))
